@@ -624,7 +624,7 @@ func runR87(c *Ctx) {
 // ---- R110: small guards of the CSV scanner ----
 
 func init() {
-	register(&Rule{ID: "R110", Name: "CSV-GUARDS", Floor: 4,
+	register(&Rule{ID: "R110", Name: "CSV-GUARDS", Floor: 2,
 		Text: "in internal/fastcsv: (a) a guard `len(x) > k` whose protected accesses are only of the last element x[len(x)-1] has k = 0 - the CR of a CRLF line end is stripped from the last field of rows of every width, also single-column rows; (b) the wrapper that defers an io.EOF delivered together with data does so whenever at least one byte was read (`n > 0`), so a final read of a single byte is not lost; (c) in the scanner methods that report progress by a bool, a reader error other than io.EOF that is stored into the sticky error field is followed by `return false`: scanning stops at the failure instead of treating the partial field as data",
 		Run:  runR110})
 }
